@@ -75,6 +75,28 @@ def descriptions(quick):
                                 body=body))
 
 
+def extra_descriptions():
+    """(thorough) every signature sequence with <= 2 nodes and, over the
+    reduced alphabet, 3 nodes, as a method-call body, with its first two
+    boundary assignments"""
+    seqs = list(space.sequences(2, space.FULL)) + \
+        [ts for ts in space.sequences(3, space.REDUCED)
+         if sum(1 for _ in ts) >= 1][::3]
+    for ts in seqs:
+        sig = space.sig_of(ts)
+        for vals in space.assignments(ts)[:2]:
+            body = space.thaw(vals)
+            for flags in (0, 3):
+                f = {'path': '/p/q', 'member': 'M', 'interface': 'org.ex.If',
+                     'destination': ':1.55'}
+                yield (1, dict(path='/p/q', member='M',
+                               interface='org.ex.If', destination=':1.55',
+                               expectReply=not flags & 1,
+                               autoStart=not flags & 2),
+                       dict(type=1, flags=flags, fields=f, sig=sig,
+                            body=body))
+
+
 def build(mtype, kw, exp):
     from txdbus import message as M
     ts = R.parse_sig(exp['sig'])
@@ -299,7 +321,10 @@ def _task(task):
     res = core.Result()
     seen = set()
     n = 0
-    for i, (mtype, kw, exp) in enumerate(descriptions(quick)):
+    descs = descriptions(quick)
+    if not quick:
+        descs = itertools.chain(descs, extra_descriptions())
+    for i, (mtype, kw, exp) in enumerate(descs):
         if i % nparts != part:
             continue
         n += 1
